@@ -1104,8 +1104,8 @@ class SourceFinder(object):
             if np.isfinite(source.peak_flux):
                 positions = np.where(kappa_sigma == source.peak_flux)
             else:
-                positions = [[kappa_sigma.shape[0] / 2],
-                             [kappa_sigma.shape[1] / 2]]
+                positions = [[kappa_sigma.shape[0] // 2],
+                             [kappa_sigma.shape[1] // 2]]
             # +1 as pix2sky expects 1-based (FITS) pixel coordinates
             xy = positions[0][0] + xmin + 1, positions[1][0] + ymin + 1
             radec = global_data.wcshelper.pix2sky(xy)
